@@ -453,7 +453,7 @@ def plan(tier, seed):
         specs = [{"kind": "tables", "examples": 60, "seed": seed * 1000 + k} for k in range(16)]
         specs += [{"kind": "files", "files": [f], "max_models": 2} for f in corpus.SMALL[:6] + ["1JJP.cif", "488d.pdb", "4qln.pdb"]]
     else:
-        specs = [{"kind": "tables", "examples": 650, "seed": seed * 1000 + k} for k in range(16)]
+        specs = [{"kind": "tables", "examples": 1500, "seed": seed * 1000 + k} for k in range(16)]
         specs += [{"kind": "files", "files": [f], "max_models": 4} for f in corpus.all_files()]
     return specs
 
